@@ -372,6 +372,7 @@ func c21(c *core.Ctx) {
 	fns := libFns(c, "opcua", "monitor")
 	c.Count("functions in opcua+monitor", len(fns))
 	c21cg = c.P.CallGraph()
+	c21FuncFields(c, fns)
 	// index
 	for _, f := range fns {
 		for _, b := range f.Blocks {
@@ -528,4 +529,149 @@ func constIndexOKFacts(facts []ssax.Fact, sp string, k int64) bool {
 		}
 	}
 	return false
+}
+
+// c21FuncFields: an optional callback is tested before it is called.
+//
+// A func-typed field of a client-side struct that some allocation site of the struct leaves unset (NodeMonitor.errHandlerCB
+// is only set by SetErrorHandler) is nil for users who do not install it. Calling it — `f(...)`, `go f(...)`,
+// `defer f(...)` — without a dominating `f != nil` test is a nil-function call in a library goroutine: the process dies
+// on the first asynchronous error a well-formed response can cause.
+func c21FuncFields(c *core.Ctx, fns []*ssa.Function) {
+	c.Rule("C21.funcnil", "every call (plain, go, defer) of a func-typed struct field of packages opcua / monitor that some allocation of the struct leaves unset is dominated by a `field != nil` test", 1)
+	// func-typed fields and whether every composite literal / new of the owner sets them
+	type owner struct{ st *types.Struct }
+	setEverywhere := map[*types.Var]bool{}
+	seenField := map[*types.Var]bool{}
+	for _, f := range fns {
+		for _, b := range f.Blocks {
+			for _, in := range b.Instrs {
+				al, ok := in.(*ssa.Alloc)
+				if !ok {
+					continue
+				}
+				p, ok := al.Type().Underlying().(*types.Pointer)
+				if !ok {
+					continue
+				}
+				st, ok := p.Elem().Underlying().(*types.Struct)
+				if !ok {
+					continue
+				}
+				named, _ := p.Elem().(*types.Named)
+				if named == nil || named.Obj().Pkg() == nil || !c.P.IsLib(named.Obj().Pkg()) {
+					continue
+				}
+				// which func fields does this allocation set?
+				set := map[int]bool{}
+				if refs := al.Referrers(); refs != nil {
+					for _, r := range *refs {
+						if fa, ok := r.(*ssa.FieldAddr); ok {
+							if rr := fa.Referrers(); rr != nil {
+								for _, u := range *rr {
+									if s2, ok := u.(*ssa.Store); ok && s2.Addr == fa && !ssax.IsNil(s2.Val) {
+										set[fa.Field] = true
+									}
+								}
+							}
+						}
+					}
+				}
+				for i := 0; i < st.NumFields(); i++ {
+					fl := st.Field(i)
+					if _, isFunc := fl.Type().Underlying().(*types.Signature); !isFunc {
+						continue
+					}
+					if !seenField[fl] {
+						seenField[fl] = true
+						setEverywhere[fl] = true
+					}
+					if !set[i] {
+						setEverywhere[fl] = false
+					}
+				}
+			}
+		}
+	}
+	n := 0
+	for _, f := range fns {
+		for _, call := range ssax.Calls(f) {
+			cc := call.Common()
+			if cc.IsInvoke() || cc.StaticCallee() != nil {
+				continue
+			}
+			ld := loadedField(cc.Value)
+			if ld.f == nil || !seenField[ld.f] || setEverywhere[ld.f] {
+				continue
+			}
+			n++
+			path := ssax.Path(ssax.Strip(cc.Value))
+			ok := false
+			for _, fact := range ssax.FactsAt(call) {
+				if fact.Op != token.NEQ {
+					continue
+				}
+				v := fact.X
+				if ssax.IsNil(v) {
+					v = fact.Y
+				} else if !ssax.IsNil(fact.Y) {
+					continue
+				}
+				if ssax.Path(ssax.Strip(v)) == path {
+					ok = true
+				}
+			}
+			detail := "the optional callback is tested for nil before it is called: " + boolStr(ok)
+			if !ok {
+				// the enclosing function only ever runs after the field was set: every site that calls or starts it
+				// is dominated, in its own function, by a store of a non-nil value to the field
+				root := ssax.Outermost(f)
+				callers := 0
+				allSet := true
+				if n := c21cg.Nodes[root]; n != nil {
+					for _, e := range n.In {
+						if e.Site == nil {
+							continue
+						}
+						callers++
+						set := false
+						cf, site := e.Caller.Func, ssa.Instruction(e.Site)
+						for hops := 0; hops < 3 && cf != nil && !set; hops++ {
+							for _, a := range ssax.FieldAccesses(cf, ld.f) {
+								if st, isSt := a.Use.(*ssa.Store); isSt && a.Kind == ssax.Write && !ssax.IsNil(st.Val) && ssax.Dominates(st, site) {
+									set = true
+								}
+							}
+							// a closure (sync.Once.Do(func() { go … })): continue at the place where it is created
+							par := cf.Parent()
+							if par == nil {
+								break
+							}
+							var mk ssa.Instruction
+							for _, b := range par.Blocks {
+								for _, in := range b.Instrs {
+									if mc, isMC := in.(*ssa.MakeClosure); isMC && mc.Fn == cf {
+										mk = mc
+									}
+								}
+							}
+							if mk == nil {
+								break
+							}
+							cf, site = par, mk
+						}
+						if !set {
+							allSet = false
+						}
+					}
+				}
+				if callers > 0 && allSet {
+					ok = true
+					detail = "every site that starts " + fname(root) + " is dominated by an assignment of the field"
+				}
+			}
+			c.Ob("C21.funcnil", fname(ssax.Outermost(f))+"·call of "+ssax.FieldString(ld.f), pos(c, call), ok, detail)
+		}
+	}
+	c.Count("calls of optional func-typed fields", n)
 }
